@@ -228,6 +228,19 @@ def check(run: Run) -> None:
     w_eff = [e for _, e in eff.direct(fi_w) if e.kind == "FILE_WRITE"]
     run.check("C07.R3", "_write_to_disk writes NEXTIDS", bool(w_eff) and all(e.target == "NEXTIDS" for e in w_eff), "_write_to_disk",
               ", ".join(e.tag() for e in w_eff) or "no write", "the persistence routine does not write next_ids.json", file=FILE, node=fi_w.node)
+    wparam = fi_w.params()[1].arg if len(fi_w.params()) > 1 else None
+    dumps = [c for c in ast.walk(fi_w.node) if isinstance(c, ast.Call) and ast.unparse(c.func) in ("json.dump", "json.dumps")]
+    ok_dump = False
+    for c in dumps:
+        a = c.args[0] if c.args else None
+        while isinstance(a, ast.Call) and ast.unparse(a.func) in ("dict", "sorted", "OrderedDict") and a.args:
+            a = a.args[0]
+        if isinstance(a, ast.Call) and isinstance(a.func, ast.Attribute) and a.func.attr == "items":
+            a = a.func.value
+        ok_dump = ok_dump or (isinstance(a, ast.Name) and a.id == wparam)
+    run.check("C07.R3", "_write_to_disk persists the whole map it is given", ok_dump, "_write_to_disk", dumps[0] if dumps else "no dump",
+              "the persisted map is not the map that was passed in (entries are filtered / rebuilt): counters of other dates are dropped and those dates restart at the first suffix, "
+              "re-issuing ZIDs that are already in use", file=FILE, node=fi_w.node)
     paths = enum_paths(fi_get.node)
     n_ret = 0
     for p in paths:
@@ -319,20 +332,13 @@ def check(run: Run) -> None:
             ok, why = _lexer_accepts_all(lx, shape)
             run.check("C07.R4", f"every YYMMDD#A^{n} is exactly one ZID token for {nm}", ok, nm, f"YYMMDD#A^{n}: {why}",
                       f"{nm}: {why}", file=rel)
-    I3 = Interp(model, probes={"method:ext:datetime.datetime": strptime_hook, "method:ext:datetime": strptime_hook})
-    for n in (2, 3):
-        z = SeqStr(tuple(CharSet(c) for c in date_shape) + ("#",) + (CharSet(A),) * n)
-        st1 = State()
-        st1.meta["dates_valid"] = True  # the date part is what strftime printed for a real date
-        res = I3.run_function(F_ISZID, [z], st=st1)
-        vals = {repr(v) for v, _ in res}
-        imprecise = [x for _, s in res for x in s.imprecise]
-        if imprecise:
-            run.undecided("C07.R4", "is_zid", "; ".join(imprecise[:3]))
-            continue
-        run.check("C07.R4", f"is_zid accepts every allocated YYMMDD#A^{n}", vals == {"True"}, "is_zid", f"YYMMDD#A^{n} -> {sorted(vals)}",
-                  f"is_zid does not recognise allocated ZIDs with a {n}-character suffix (results {sorted(vals)}): a page carrying one gets a second ZID when it is compiled again",
-                  file="src/zorg/shared/dates.py", node=model.func(F_ISZID).node)
+    from .c08 import recogniser_try_parses
+
+    run.check("C07.R4", "the date part of a ZID is validated by the parse itself", recogniser_try_parses(model, "zorg.shared.dates.is_short_date_spec", ("from_short_date_spec", "strptime")),
+              "is_short_date_spec", "hand-written calendar check",
+              "is_short_date_spec decides with its own calendar arithmetic instead of attempting the parse: any slip (leap years, month lengths) makes is_zid reject ZIDs the allocator "
+              "issued for a real date (or accept impossible ones)", file="src/zorg/shared/dates.py")
+    is_zid_accepts_allocated(run, model, "C07.R4", A, strptime_hook)
     # ------------------------------------------------------------- R5
     enter_id = model.func("zorg.service.compiler._file_compiler.ZorgFileCompiler.enterId")
     uses = [c for c, t in model.calls_in(enter_id) if t == F_ISZID]
@@ -362,3 +368,74 @@ def allocated_zids_lex_as_zids(run: Run, model: PyModel, rid: str) -> None:
     run.check(rid, "every character the ZID allocator can emit is a ZID_CHAR of the file lexer", not bad, "_get_next_id", f"emits {''.join(bad)} outside ZID_CHAR",
               f"the allocator can emit {bad}: a ZID containing it is written into the file but is not lexed as a ZID, so recompiling the file gives a note without ZID "
               "(and every later run assigns another one)", file=FILE)
+
+
+def is_zid_accepts_allocated(run: Run, model: PyModel, rid: str, A=None, strptime_hook=None) -> None:
+    """L_alloc = YYMMDD#A{2,3} is inside the language of is_zid (abstract evaluation over character-class strings)."""
+    I0 = Interp(model)
+    if A is None:
+        A = _alphabet(run, I0)
+        if not A:
+            return
+
+    def hook(I, recv, name, args, kwargs, st, node):
+        if name == "strptime" and not st.meta.get("dates_valid"):
+            s2 = st.fork()
+            return [(Opaque("datetime"), st), (Raised("ValueError", node, "strptime"), s2)]
+        return None
+
+    hook = strptime_hook or hook
+    I3 = Interp(model, probes={"method:ext:datetime.datetime": hook, "method:ext:datetime": hook})
+    date_shape = [DIGITS, DIGITS, frozenset("01"), DIGITS, frozenset("0123"), DIGITS]
+    for n in (2, 3):
+        z = SeqStr(tuple(CharSet(c) for c in date_shape) + ("#",) + (CharSet(frozenset(A)),) * n)
+        st1 = State()
+        st1.meta["dates_valid"] = True  # the date part is what strftime printed for a real date
+        try:
+            res = I3.run_function(F_ISZID, [z], st=st1)
+        except Exception as e:  # unsupported construct inside the recogniser
+            run.undecided(rid, "is_zid", f"cannot evaluate is_zid abstractly: {e}")
+            continue
+        vals = {repr(v) for v, _ in res}
+        imprecise = [x for _, s in res for x in s.imprecise]
+        if vals == {"True"} and not imprecise:
+            run.proved(rid, f"is_zid accepts every allocated YYMMDD#A^{n}")
+        elif "False" in vals and not imprecise:
+            run.refuted(rid, "is_zid", f"YYMMDD#A^{n} -> {sorted(vals)}",
+                        f"is_zid does not recognise allocated ZIDs with a {n}-character suffix (results {sorted(vals)}): a page carrying one gets a second ZID when it is compiled again, "
+                        "and `action open` does not offer it as a target", file="src/zorg/shared/dates.py", node=model.func(F_ISZID).node)
+        else:
+            # regex-based or otherwise un-interpretable recognisers: decide the length clause structurally
+            lens = _accepted_lengths(model)
+            if lens is not None and (7 + n) not in lens:
+                run.refuted(rid, "is_zid", f"YYMMDD#A^{n} has length {7 + n}, accepted lengths {sorted(lens)}",
+                            f"is_zid only accepts strings of length {sorted(lens)}: allocated ZIDs with a {n}-character suffix are not recognised", file="src/zorg/shared/dates.py", node=model.func(F_ISZID).node)
+            else:
+                run.undecided(rid, "is_zid", "; ".join(imprecise[:3]) or f"results {sorted(vals)}")
+
+
+def _accepted_lengths(model: PyModel):
+    """Lengths a regex-based is_zid can accept (fullmatch of a fixed-width pattern), else None."""
+    import re._parser as sp
+
+    fi = model.func(F_ISZID)
+    mod = fi.module
+    pats = []
+    for n in ast.walk(fi.node):
+        if isinstance(n, ast.Call) and isinstance(n.func, ast.Attribute) and n.func.attr in ("fullmatch", "match"):
+            base = n.func.value
+            if isinstance(base, ast.Name) and base.id in mod.assigns:
+                v = mod.assigns[base.id]
+                if isinstance(v, ast.Call) and v.args and isinstance(v.args[0], ast.Constant):
+                    pats.append((v.args[0].value, n.func.attr))
+            elif ast.unparse(base) == "re" and n.args and isinstance(n.args[0], ast.Constant):
+                pats.append((n.args[0].value, n.func.attr))
+    if len(pats) != 1:
+        return None
+    try:
+        lo, hi = sp.parse(pats[0][0]).getwidth()
+    except Exception:
+        return None
+    if pats[0][1] != "fullmatch" and not pats[0][0].endswith("$"):
+        return None
+    return set(range(lo, min(hi, 64) + 1))
